@@ -82,6 +82,8 @@ type Sim struct {
 	roots          int
 	Log            func(format string, a ...any)
 	rtBase         uint64 // base of the runtime random source for this run
+	visits         atomic.Int64 // preemption-point visits since a managed goroutine last parked
+	MaxVisits      int64        // bound on the above before the run counts as spinning (0: unbounded)
 	skew           atomic.Int64
 	holderG        atomic.Pointer[G]
 	holder         atomic.Int64 // goid of the goroutine that was granted the baton and has not parked since
@@ -186,6 +188,20 @@ func Preempt(site string) {
 		ptMu.Unlock()
 		ptLog(site)
 	}
+	if n := s.visits.Add(1); s.MaxVisits > 0 && n > s.MaxVisits && !s.killed.Load() {
+		// a loop in qryn's own code that never reaches a synchronisation operation: the simulated process spins
+		s.mu.Lock()
+		if s.Livelock == "" {
+			s.Livelock = fmt.Sprintf("%d function entries / loop iterations without reaching a synchronisation operation; spinning at %s", n, site)
+		}
+		s.mu.Unlock()
+		s.Kill()
+		if g := s.self(); g != nil {
+			g.dying = true
+			runtime.Goexit()
+		}
+		return
+	}
 	if RuntimeSeeded {
 		// baton discipline: a managed goroutine that woke from a blocking call the instrumenter does not see
 		// (a sleep inside a library, a timer callback) runs without a grant; the order in which several of them
@@ -253,7 +269,7 @@ func Active() *Sim { return cur.Load() }
 // Must be called inside the synctest bubble.
 func New(tape []byte, seed uint64) *Sim {
 	s := &Sim{gs: map[int64]*G{}, tape: tape, rng: seed, wake: make(chan struct{}, 1), kill: make(chan struct{}),
-		stopped: make(chan struct{}), MaxSpin: 200000, lastAdvance: time.Now(), OvertakeBudget: 3 * time.Second}
+		stopped: make(chan struct{}), MaxSpin: 200000, lastAdvance: time.Now(), OvertakeBudget: 3 * time.Second, MaxVisits: 100_000_000}
 	h := fnv.New64a()
 	s.trace = h.Sum64()
 	// the runtime's own randomness is part of the schedule: derived from the tape and the seed
@@ -442,6 +458,7 @@ func (s *Sim) park(g *G, site string, waitOn any) {
 		runtime.Goexit()
 	}
 	s.holder.CompareAndSwap(g.goid, 0)
+	s.visits.Store(0)
 	s.mu.Lock()
 	g.site = site
 	g.parked = true
